@@ -32,12 +32,18 @@ def mutate_into(t, v):
     elif k == "bitlist":
         for c in v:
             x.append(c == "1")
+        if len(v) < t[1]:                 # one more than needed, popped again
+            x.append(True)
+            x.pop()
     elif k == "vec":
         for i, e in enumerate(v):
             x[i] = mutate_into(t[1], e)
     elif k == "list":
         for e in v:
             x.append(mutate_into(t[1], e))
+        if len(v) < t[2]:                 # one more than needed (a non-default element where there is one), popped again
+            x.append(mutate_into(t[1], v[-1]) if v else T(t[1]).default(None) if is_basic(t[1]) else T(t[1])())
+            x.pop()
     elif k == "cont":
         for i, (f, e) in enumerate(zip(t[1], v)):
             setattr(x, "f%d" % i, mutate_into(f, e))
